@@ -86,7 +86,7 @@ def _guarded(func, case):
     """
     import signal  # pylint: disable=import-outside-toplevel
 
-    limit = int((case.get('timeout') if isinstance(case, dict) else None) or getattr(func, 'case_timeout', 240))
+    limit = int((case.get('timeout') if isinstance(case, dict) else None) or getattr(func, 'case_timeout', 1800))
     old = signal.signal(signal.SIGALRM, _alarm)
     signal.alarm(limit)
     try:
